@@ -12,6 +12,9 @@ Inductive c14case :=
 (* a lock-step conversation on the real SERVER connection (rig harness/sv_c05_test.go): when every started handler has
    returned nothing is held for them (Check/SrvSpec.v, reason 8); with_model = false: request deadlines, outside Model/Server.v *)
 | C14Srv (with_model : bool) (c : ServerC.svcase)
+(* goroutines that have a frame of the library on their stack (or as creator), counted at the idle points of a long
+   history (no RPC in flight), in order: whatever else a call starts besides the two kinds of goroutines of the model *)
+| C14Gor (idle_counts : list Z)
 | C14Long (samples : list (Z * Z * Z * Z * Z)).   (* client registry, stream loops, RPCs in flight, streams in flight, server stream registry (-1 = not read) *)
 
 Definition act_list (c : ccase) : list act := match c with CClient a _ => a | CClientWedged a _ _ => a end.
@@ -122,6 +125,10 @@ Definition spec_c14 (c : c14case) : list nat :=
   match c with
   | C14Step cc => dedup Nat.eqb (c14_walk (act_list cc) (obs_list cc) [] [] ++ rst_bad (act_list cc) (obs_list cc))
   | C14Long samples => dedup Nat.eqb (flat_map long_bad samples)
+  | C14Gor counts => match counts with
+                     | [] => []
+                     | base :: rest => if forallb (fun c => c <=? base) rest then [] else [9%nat]
+                     end
   | C14Srv _ _ => []
   end.
 
@@ -129,6 +136,7 @@ Definition check_c14 (c : c14case) : list nat :=
   match c with
   | C14Step cc => (if agrees cc then [] else [1%nat]) ++ spec_c14 c
   | C14Long _ => spec_c14 c
+  | C14Gor _ => spec_c14 c
   | C14Srv m sc => SrvSpec.check_c14srv m sc
   end.
 
@@ -150,3 +158,6 @@ Example long_bad_5 : long_bad (1, 0, 0, 0, 0) = [4%nat; 5%nat]. Proof. reflexivi
 Example long_bad_5_loop : long_bad (0, 1, 0, 0, 0) = [4%nat; 5%nat]. Proof. reflexivity. Qed.
 Example long_bad_6 : long_bad (0, 0, 0, 0, 1) = [6%nat]. Proof. reflexivity. Qed.
 Example long_ok : long_bad (2, -1, 3, 1, 4) = []. Proof. reflexivity. Qed.
+
+Example gor_ok : check_c14 (C14Gor [12; 12; 11; 12]) = []. Proof. reflexivity. Qed.
+Example gor_bad : check_c14 (C14Gor [12; 13; 15; 40]) = [9%nat]. Proof. reflexivity. Qed.
